@@ -1292,8 +1292,11 @@ class Config:  # pylint: disable=too-many-instance-attributes
         :param sensitive_mask: mask secure values with a string
         :returns: the basic tree containing all set values
         """
+        # a field declared by the schema governs its key (see _get_field), also when this
+        # configuration already held a dynamic field of the same name
         fields: Dict[str, BaseField] = dict(self._schema._fields)
-        fields.update(self._fields)
+        for key, field in self._fields.items():
+            fields.setdefault(key, field)
         # configurations held inside list / dict values (at any depth) are rendered by the
         # container field's to_basic(): let it see the options of this call
         self._tree_options = {"virtual": virtual, "sensitive_mask": sensitive_mask}
